@@ -278,13 +278,15 @@ impl std::fmt::Display for InvalidProofKind {
             InvalidProofKind::LeafIndexOutsideTree {
                 leaf_index,
                 tree_size,
-            } => {
-                let tree_index = crate::leaf_index_to_tree_index(*leaf_index);
-                f.write_fmt(format_args!(
+            } => match leaf_index.checked_mul(2) {
+                Some(tree_index) => f.write_fmt(format_args!(
                     "leaf index {leaf_index} corresponding to tree index {tree_index} exceeds \
                      tree of size {tree_size}"
-                ))
-            }
+                )),
+                None => f.write_fmt(format_args!(
+                    "leaf index {leaf_index} exceeds tree of size {tree_size}"
+                )),
+            },
             InvalidProofKind::ZeroTreeSize => f.pad("proof is undefined for trees of size zero"),
         }
     }
@@ -546,7 +548,13 @@ impl Proof {
         let mut i = crate::leaf_index_to_tree_index(*leaf_index);
         let mut acc = leaf_hash;
         for sibling in audit_path.chunks(32) {
-            let parent = crate::complete_parent(i, tree_size.get());
+            let Some(parent) = crate::checked_complete_parent(i, tree_size.get()) else {
+                // The audit path is longer than the path from the leaf to the root. Keep folding
+                // the surplus segments so that the result is an incorrect Merkle Tree Hash
+                // instead of walking off the tree.
+                acc = crate::combine(&acc, sibling);
+                continue;
+            };
             if parent > i {
                 acc = crate::combine(&acc, sibling);
             } else {
